@@ -71,7 +71,7 @@ func applyLeaseEvent(s *wtxmgr.Store, clk *clock.TestClock, ns walletdb.ReadWrit
 
 	b := ref.B
 	switch e.Kind {
-	case "seen", "mine", "disc", "abandon":
+	case "seen", "mine", "disc", "abandon", "recredit":
 		if err := ApplyImpl(s, ns, b, e); err != nil {
 			return "", err
 		}
